@@ -175,6 +175,8 @@ class Ref:
 def _edge_pairs(fam, n):
     if fam == "dag":
         return [(i, j) for i in range(n) for j in range(i + 1, n)]
+    if fam == "loop":  # DirectedGraph with self-loops (legal there: only the DAG subclass rejects them)
+        return [(i, j) for i in range(n) for j in range(n)]
     return [(i, j) for i in range(n) for j in range(n) if i != j]
 
 
@@ -215,7 +217,9 @@ def _ref_step(ref, op, prune):
             return ("ValueError",)
         inherited = (ref.succ(op[1]), ref.pred(op[1]))
         ref.replace(op[1], op[2])
-        return ("replaced",) + inherited + inherited
+        # the new node has the edges of the old one (a self-loop old->old becomes new->new)
+        renamed = tuple({op[2] if x == op[1] else x for x in part} for part in inherited)
+        return ("replaced",) + inherited + renamed
     return ("promoted", ref.promote(op[1]), 0, True)
 
 
@@ -332,7 +336,7 @@ def alphabet(fam: str, n: int, level: str) -> tuple:
         ops.append(("add", u))
     for u in U:
         for v in U:
-            if u != v:
+            if u != v or fam == "loop":
                 ops.append(("add", u, v))
     for a in U:
         ops.append(("rm", (a,)))
@@ -678,7 +682,7 @@ def _spec_tree(fam, n, sched, lo, hi, fixed, cond):
         cond=cond,
         path=120,
         bound=f"{cls}; initial graph = any subset of the {len(pairs)} edges "
-        + ("i->j, i<j" if fam == "dag" else "i->j, i!=j")
+        + ("i->j, i<j" if fam == "dag" else "i->j incl. self-loops i->i" if fam == "loop" else "i->j, i!=j")
         + f" on nodes 0..{n - 1}"
         + (f" (partition: edges {[names[k] for k in sorted(fixed)]} fixed to {part})" if fixed else "")
         + f"; first operation in [{', '.join(_opstr(o) for o in ops)}]"
@@ -762,6 +766,8 @@ def specs(tier: str):
             ("dag", 4, "mid", 18, 0, 400),
             ("cyc", 3, "full", 20, 0, 400),
             ("dag", 3, "small,small", 60, 0, 400),
+            ("loop", 2, "full", 20, 0, 400),
+            ("loop", 3, "small", 12, 0, 400),
         ]
         mplan = [(4, 1, 4, 400), (3, 2, 3, 400)]
     else:
@@ -773,6 +779,8 @@ def specs(tier: str):
             ("dag", 3, "small,small,small", 700, 0, 3000),
             ("cyc", 3, "full,small", 110, 0, 3000),
             ("cyc", 4, "small", 20, 3, 3000),
+            ("loop", 2, "full,full", 200, 0, 3000),
+            ("loop", 3, "full", 10, 0, 3000),
         ]
         mplan = [(4, 2, 2, 3000)]
     for fam, n, sched, target, nfix, cond in plan:
